@@ -67,7 +67,7 @@ REACH = ["insitu_table_checks", "insitu_split_tables", "bucket_split", "deep_spl
          "bad_node_removed", "bad_node_evicted_on_add", "rtt_eviction_on_add", "update_same_id",
          "closest_spans_multiple_buckets", "closest_fewer_than_k", "closest_bad_filtered", "closest_exclude_hit",
          "same_key_two_ids_live", "generate_id_sampled_nonroot", "status_changed_by_clock",
-         "trie_delete_collapses", "trie_delete_last_key", "trie_delete_missing_keyerror", "trie_overwrite"]
+         "trie_delete_collapses", "trie_delete_last_key", "trie_delete_missing_keyerror", "trie_overwrite", "same_node_object_added_again"]
 
 # closest_nodes() re-walks, for every level it climbs, the whole subtree below (Trie._find per key, quadratic Trie.suffixes):
 # up to 0.8 s for one call on a deep, sparsely filled tree.  The number of calls per case is therefore bounded by a
@@ -201,7 +201,14 @@ def _table_case(seed: int, tier: str) -> dict:  # noqa: C901, PLR0912, PLR0915
 
     for _ in range(n_ops):
         kind = rng.choices(["add", "set", "tick", "rm_bad", "closest", "lookup"], op_w)[0]
-        if kind == "add":
+        if kind == "add" and known and rng.random() < 0.2:
+            # somebody who still holds the Node OBJECT of an id that was added before (a crawl waiting for its answer) adds that
+            # very object again - it may have been evicted or swept out, and its old bucket may have been split meanwhile
+            ident = rng.choice(known[-60:])
+            op = {"op": "add", "id": _hex(ident), "key": 0, "addr": 1, "reuse": True}
+            if rng.random() < 0.5:
+                op.update(attrs())
+        elif kind == "add":
             ident, kidx = draw_id()
             op = {"op": "add", "id": _hex(ident), "key": kidx, "addr": rng.randrange(1, 1 << 16)}
             op.update(attrs())
@@ -610,13 +617,19 @@ def _execute_table(case: dict) -> dict:  # noqa: C901, PLR0912, PLR0915
     # ------------------------------------------------------------------ the history
     items = check_tree("initial")
     n_ops = len(case["ops"])
+    objs: dict = {}
     for i, op in enumerate(case["ops"]):
         st["step"] = i
         kind = op["op"]
         outcome = None
         if kind == "add":
             ident = bytes.fromhex(op["id"])
-            node = FNode(op["key"], op["addr"], ident)
+            node = objs.get(ident) if op.get("reuse") else None
+            if node is None:
+                node = FNode(op["key"], op["addr"], ident)
+            else:
+                c.probe("same_node_object_added_again")
+            objs[ident] = node
             set_attrs(node, op)
             before = {id(n): (n, k, len(b.nodes)) for k, b in items for n in b.nodes.values()}
             owner_before = next(((k, b) for k, b in items if bits(ident).startswith(k)), None)
